@@ -4,7 +4,11 @@
     ProgressStyle::with_template / ProgressStyle::template (Template::from_str_with_tab_width),
     [render_parts expand tw] the model of ProgressStyle::format_state for a style without a
     wide element, where [expand p] is whatever the placeholder [p] writes (arbitrary) and [tw]
-    the tab width. *)
+    the tab width; [parse_full] is the same parser with the panic outcome explicit and
+    [fmt_render env styles tw] the same renderer with format_state's scratch buffer threaded and
+    the key dispatch (format_map, `_ => ()`) transcribed.  Every definition used in a statement
+    is in IndModel.Template.  What is modelled (file:line), the panic sites, what is not proved
+    and the interpretations: docs/C10.md. *)
 From IndModel Require Import Base Template.
 From IndProofs Require Import TemplateProofs.
 From Coq Require Import List NArith.
@@ -118,7 +122,7 @@ Theorem C10_newline_ends_line : forall (expand : ph -> list N) (tw : N) t1 t2,
     split_nl (text expand tw t1) ++ render_spec expand tw t2
   /\ render_spec expand tw (t1 ++ IBraceWs 10 :: t2) =
     split_nl (text expand tw t1 ++ [123]) ++ render_spec expand tw t2.
-Proof. intros e tw t1 t2 H. split; [exact (spec_newline e tw t1 t2 H) | exact (spec_brace_newline e tw t1 t2 H)]. Qed.
+Proof. exact newline_ends_line. Qed.
 Print Assumptions C10_newline_ends_line.
 
 (** Unknown keys expand to nothing.  [fmt_render env styles tw] is format_state for a style
